@@ -181,7 +181,7 @@ def ob_install_generators():
         be = object.__new__(BK.Backend)
         be.environment = types.SimpleNamespace(get_build_dir=lambda: '/bld', get_source_dir=lambda: '/src', get_prefix=lambda: prefix,
                                                get_includedir=lambda: 'include', get_mandir=lambda: 'share/man')
-        kind = choose(4, 'kind')
+        kind = choose(5, 'kind')
         d = types.SimpleNamespace(headers=[], man=[], data=[], install_subdirs=[], targets=[], symlinks=[], emptydir=[], build_dir='/bld', prefix=prefix)
         DA = 'ab/'
         if kind == 0:
@@ -208,7 +208,7 @@ def ob_install_generators():
             de = B.Data([ML.File(False, 'data', 'f.txt')], idir, iname, None, '', rename=[ren], install_tag='t')
             be.build = types.SimpleNamespace(get_data=lambda: [de])
             be.generate_data_install(d); got = d.data; key = 'data'
-        else:
+        elif kind == 3:
             isub = sym_str(1 + choose(3, 'il'), 'installable_subdir', alphabet=DA)
             tail = sym_str(1 + choose(2, 'dl'), 'dir', alphabet=DA)
             named = choose(2, 'placeholder')            # install_dir: get_option('datadir') / ... gives a name with a placeholder that differs from the path
@@ -219,6 +219,13 @@ def ob_install_generators():
                                        install_tag='t', install_mode=None, exclude=(set(), set()), subproject='', follow_symlinks=None)
             be.build = types.SimpleNamespace(get_install_subdirs=lambda: [sd])
             be.generate_subdir_install(d); got = d.install_subdirs; key = 'install_subdirs'
+        if kind == 4:
+            # a build target / custom target: TargetInstallData derives the name from the directory when none is given
+            outdir = sym_str(1 + choose(3, 'ol'), 'outdir', alphabet=DA)
+            named = choose(2, 'placeholder')
+            t = BK.TargetInstallData('sub/prog', ('lib/' + outdir) if named else outdir, ('{libdir}/' + outdir) if named else None, False, {}, set(), '', None, '', 'linux', tag='runtime')
+            roots['{libdir}'] = 'lib'
+            d.targets.append(t); got = [t]; key = 'targets'
         check(len(got) == 1, 'one install entry per declared file / directory')
         if len(got) != 1: return
         plan = MT.list_install_plan(None, None, types.SimpleNamespace(create_install_data=lambda: d))
@@ -228,7 +235,7 @@ def ob_install_generators():
         for ph, val in roots.items():
             if isinstance(name, str) and name.startswith(ph): name = val + name[len(ph):]
             elif not isinstance(name, str) and len(name) >= len(ph) and decide(bt_any(name.startswith(ph))): name = val + name[len(ph):]
-        real = got[0].install_path
+        real = (got[0].outdir + '/prog') if key == 'targets' else got[0].install_path
         if key == 'headers': real = real + '/' + 'h.h' if not decide(bt_any(real.endswith('/'))) else real + 'h.h'
         a = MI.get_destdir_path('', prefix, name); b = MI.get_destdir_path('', prefix, real)
         # compare up to duplicate slashes (os.path.join keeps what it is given)
@@ -283,7 +290,7 @@ def obligations(tier):
     out.append(Obligation('install-plan', ob_install(), dict(kinds='data | man | headers', install_path='1-2 chars over /ab', tag='None|runtime|devel|""', subproject='""|sub'),
                           labels=('data', 'man', 'headers')))
     out.append(Obligation('install-plan/interleaved', ob_install_many(), dict(entries=3, sections='data | configure | python in any order'), labels=('done',)))
-    out.append(Obligation('install-generators', ob_install_generators(), dict(kinds='headers | man | data | install_subdir', directories='1-3 chars over ab/ (trailing slash, absolute, nested)',
-                          placeholders='{prefix} {includedir} {mandir} {datadir}', strip_directory='both'), labels=('headers', 'man', 'data', 'install_subdirs'), max_paths=3000000))
+    out.append(Obligation('install-generators', ob_install_generators(), dict(kinds='headers | man | data | install_subdir | build target', directories='1-3 chars over ab/ (trailing slash, absolute, nested)',
+                          placeholders='{prefix} {includedir} {mandir} {datadir}', strip_directory='both'), labels=('headers', 'man', 'data', 'install_subdirs', 'targets'), max_paths=3000000))
     out.append(Obligation('buildoptions', ob_options(), dict(options='project int/bool, system combo, builtin bool; symbolic values'), labels=('done',)))
     return out
